@@ -160,7 +160,11 @@ def render_file(sc, stmt, rng):
                 out.append("\t" + spec(f) + " // trailing %d" % i)
             out.append(")")
         out.append("")
-    out += ["func f() {", "\t" + stmt, "}", ""]
+    out += ["func f() {", "\t" + stmt]
+    if stmt.endswith(".Old()"):
+        # the same call through a name that is not the matched import's: never an instance
+        out.append("\tdecoyname.Old()")
+    out += ["}", ""]
     keep = [n for n in sc["uses"] if usable(n)]
     local = {(f["name"] or BASE[f["path"]]) for f in imps}
     out.append("func keep() {")
@@ -215,10 +219,11 @@ def run_cases(ctx, scs, name, allow_ref):
         old_call = m["code"][0][:-2]
         # the metavariable-named call is rendered under the file's own name
         changed = any(c.endswith(new_call.split(".")[-1]) for c in o_["calls"]) and not any(c.endswith(new_call.split(".")[-1]) for c in i_["calls"])
-        m["obs"] = dict(inImports=i_["imports"], outImports=o_["imports"], uses=o_["uses"], calls=o_["calls"], changed=changed)
+        decoy = "decoyname.Old" not in i_["calls"] or "decoyname.Old" in o_["calls"]
+        m["obs"] = dict(inImports=i_["imports"], outImports=o_["imports"], uses=o_["uses"], calls=o_["calls"], changed=changed, decoy_kept=decoy)
         lines.append(dict(id=m["id"], pkg=m["sc"]["pkg"], pimps=m["sc"]["pimps"],
                           fimps=[dict(name=x["name"], path=ABS.get(x["path"], x["path"])) for x in i_["imports"]],
-                          uses=o_["uses"], changed="1" if changed else "0",
+                          uses=[u for u in o_["uses"] if u != "decoyname"], changed="1" if changed else "0", decoy="1" if decoy else "0",
                           out=[dict(name=x["name"], path=ABS.get(x["path"], x["path"])) for x in o_["imports"]],
                           err=(m["err"] or "")[:300]))
     return meta, lines
@@ -263,7 +268,7 @@ def run_pairs(ctx, scs, name):
         m["obs"] = dict(midImports=i_["imports"], outImports=o_["imports"], uses=o_["uses"], calls=o_["calls"], changed=changed)
         lines.append(dict(id=m["id"], pkg="", pimps=m["sc"]["pimps"],
                           fimps=[dict(name=x["name"], path=ABS.get(x["path"], x["path"])) for x in i_["imports"]],
-                          uses=o_["uses"], changed="1" if changed else "0",
+                          uses=o_["uses"], changed="1" if changed else "0", decoy="1",
                           out=[dict(name=x["name"], path=ABS.get(x["path"], x["path"])) for x in o_["imports"]],
                           err=(m["err"] or "")[:300]))
     return meta, lines
@@ -343,7 +348,8 @@ def replay(ctx, path, owned, prop):
     if r.get("first_patch"):
         changed = "qux" in oo["calls"]
     line = dict(id="replay", pkg=sc["pkg"], pimps=sc["pimps"], fimps=[dict(name=x["name"], path=ABS.get(x["path"], x["path"])) for x in oi["imports"]],
-                uses=oo["uses"], changed="1" if changed else "0",
+                uses=[u for u in oo["uses"] if u != "decoyname"], changed="1" if changed else "0",
+                decoy="1" if ("decoyname.Old" not in oi["calls"] or "decoyname.Old" in oo["calls"]) else "0",
                 out=[dict(name=x["name"], path=ABS.get(x["path"], x["path"])) for x in oo["imports"]], err=(res["err"] or "")[:300])
     meta = [dict(id="replay", sc=sc, patch=r["patch"], src=r["src"], out=res["out"], err=res["err"], obs=dict(uses=oo["uses"], changed=changed))]
     v = validate(ctx, "replay", meta, [line], shards=1)
